@@ -256,13 +256,17 @@ def _resolve(resolver, header) -> RefKey | None:
     return None
 
 
+def _not_json(word):
+    raise ValueError(f"{word} is not JSON")
+
+
 def _parse_protected(p64: str):
     try:
         octets = b64u_dec_lenient(p64)
     except (B64Error, UnicodeError, ValueError):
         return None, "protected header is not base64url"
     try:
-        h = json.loads(octets)
+        h = json.loads(octets, parse_constant=_not_json)   # RFC 8259 has no NaN / Infinity
     except (ValueError, RecursionError):
         return None, "protected header is not JSON"
     if not isinstance(h, dict):
